@@ -130,6 +130,33 @@ Theorem C20_config_for_setup_full : forall (V : Type) (s : sig V) ignore over,
 Proof. exact (fun V s ignore over H => @config_for_setup V s ignore over (@cf_no_refusal V s ignore over H)). Qed.
 Print Assumptions C20_config_for_setup_full.
 
+(* the field of an ANNOTATED parameter takes the parameter's own annotation - whatever get_type_hints(cls) says under the
+   same name (class targets) - and for an un-annotated one: the class-level hint, else the inferred type, else it is skipped.
+   Over the regenerated if/elif chain of config_for. *)
+Theorem C20_config_for_type_source : forall has_hint hint_same has_default,
+  type_source (f_cf_type_chain facts_gen) true has_hint has_default = Some SrcParam
+  /\ field_type_ok (f_cf_type_chain facts_gen) true has_hint hint_same has_default = true.
+Proof. exact gen_annotated_param_wins. Qed.
+Print Assumptions C20_config_for_type_source.
+Theorem C20_config_for_type_source_unannotated : forall has_default,
+  type_source (f_cf_type_chain facts_gen) false true has_default = Some SrcClass
+  /\ type_source (f_cf_type_chain facts_gen) false false true = Some SrcInfer
+  /\ type_source (f_cf_type_chain facts_gen) false false false = None.
+Proof. exact gen_unannotated_sources. Qed.
+Print Assumptions C20_config_for_type_source_unannotated.
+
+(* ignore_args: the names the code ignores are the names the caller wrote (a str is ONE name, not its characters) *)
+Theorem C20_config_for_ignore_names : forall i, ignore_names (f_cf_str_single facts_gen) i = spec_ignore_names i.
+Proof. exact gen_ignore_names. Qed.
+Print Assumptions C20_config_for_ignore_names.
+
+(* main: run-time positionals given to the wrapper come after the parsed positional-only values *)
+Theorem C20_main_runtime_positionals : forall (V : Type) (s : sig V) vals xp xk,
+  c_pos (main_call facts_gen s vals xp xk)
+  = (map (fun p => vals (p_name p)) (filter is_po (main_order facts_gen s)) ++ xp)%list.
+Proof. exact (fun V s vals xp xk => @main_call_pos_runtime V facts_gen gen_pos_kinds gen_pos_keys s vals xp xk gen_parsed_pos_first). Qed.
+Print Assumptions C20_main_runtime_positionals.
+
 (* ---- Partial.__call__ -----------------------------------------------------------------------------------------
    For EVERY field list, values and call-site arguments: the callable is invoked with the call-site positionals and
    with exactly the field values updated by the call-site kwargs (the call site wins). *)
